@@ -373,6 +373,13 @@ def c16_realtime_cold(rng, res, props=("C16",)):
         hot.current_capacity -= size
         hot.observations["stored"].append(o)
         bad = []
+        # every rate of the configuration is scaled by the unit, the real-time marker included (it stays negative)
+        mach = h.sim.cluster.machines[0]
+        if hot.max_ingest_data_rate != spec["hot"]["rate"] * m or not (cold.max_data_rate < 0) or \
+                mach.cpu != 10 * m or mach.bandwidth != 2 * m or o.ingest_data_rate != 1 * m:
+            bad.append("rates parsed as hot limit %s (want %s), cold %s (want negative), machine %s/%s (want %s/%s), data rate %s (want %s)" % (
+                fr(hot.max_ingest_data_rate), spec["hot"]["rate"] * m, fr(cold.max_data_rate), fr(mach.cpu), fr(mach.bandwidth),
+                10 * m, 2 * m, fr(o.ingest_data_rate), m))
         for direction, fn in (("hot->cold", buf.move_hot_to_cold), ("cold->hot", buf.move_cold_to_hot)):
             p = env.process(fn(0))
             steps = 0
@@ -1223,7 +1230,29 @@ def check_c10(rng, n, hashseeds=("0", "1", "2")):
                     o["ingest_demand"] = min(o["ingest_demand"], spec["max_ingest"])
                     sp[o["name"]] = {str(nd["id"]): "m0" for nd in nodes}
                 spec["static_plan"] = sp
+            if shape == "any" and i >= 6:
+                # buffer tiering (hot tier over its threshold): what one simulation leaves behind in the interpreter
+                # must not reach the next one (compared below with a fresh interpreter that runs this case only)
+                d1, d2 = rng.randint(1, 3), rng.randint(1, 3)
+                ra, rb = rng.randint(4, 8), rng.randint(2, 5)
+                va, vb = ra * d1, rb * d2
+                fl = 10
+                spec = {"machines": [{"id": "m%d" % k, "flops": fl, "bw": 2} for k in range(3)], "system_bandwidth": 1,
+                        "total_arrays": 4, "max_ingest": 2,
+                        "observations": [
+                            {"name": "a", "start": 0, "duration": d1, "demand": 1, "rate": ra, "ingest_demand": 1,
+                             "workflow": {"nodes": [{"id": 0, "comp": fl * rng.randint(12, 20)}], "edges": []}},
+                            {"name": "b", "start": d1 + rng.randint(0, 1), "duration": d2, "demand": 1, "rate": rb, "ingest_demand": 1,
+                             "workflow": {"nodes": [{"id": 0, "comp": fl * rng.randint(1, 3)}], "edges": []}}],
+                        # a alone stays under 60 %, a and b together go over it: b is tiered out when it is stored
+                        "hot": {"capacity": max(int(va / 0.58) + 1, int((va + vb) / 0.9)), "rate": 10},
+                        "cold": {"capacity": 4 * (va + vb), "rate": max(vb, 1)},
+                        "timestep": "seconds", "planning": "batch", "scheduling": {"kind": "queue"}, "delay": None}
             outs = []
+            if i % 3 == 0:
+                fresh = subprocess.run([sys.executable, "-c", WORKER], input=json.dumps(spec) + "\n", text=True,
+                                       capture_output=True, env=dict(os.environ, PYTHONHASHSEED="0"))
+                outs.append(fresh.stdout.strip().split("\n")[-1] if fresh.stdout.strip() else "")
             for w in workers:
                 w.stdin.write(json.dumps(spec) + "\n")
                 w.stdin.flush()
